@@ -622,6 +622,29 @@ def M.der : M → α → List α → List α → Option α
       let d ← m.der F p rest
       some (invertDerivative d)
 
+/-- `Model.__call__(x, params)` through a model tree: the sum of the two sides, the wrapped model at the shifted
+    abscissa, and for an inverted model the value the numerical inversion returned (`sols`, as for `M.der`).
+    This is the function `M.der` / `M.jac` claim to differentiate (deepening round D). -/
+def M.val : M → α → List α → List α → Option α
+  | .base k _, x, p, _ => baseVal k x p
+  | .add l r, x, p, sols => do
+    let all := (M.add l r).params
+    let li ← subIdx all l.params
+    let ri ← subIdx all r.params
+    let pl ← pick li p
+    let pr ← pick ri p
+    let vl ← l.val x pl (sols.take l.countInv)
+    let vr ← r.val x pr (sols.drop l.countInv)
+    some (vl + vr)
+  | .off name m, x, p, sols => do
+    let all := (M.off name m).params
+    let mi ← subIdx all m.params
+    let oi ← indexOf all name
+    let o ← p[oi]?
+    let pm ← pick mi p
+    m.val (x - o) pm sols
+  | .inv _, _x, _p, sols => sols.head?
+
 /-- `Model.jacobian(x, param_vector)` through a model tree: one entry per parameter. -/
 def M.jac : M → α → List α → List α → Option (List α)
   | .base k _, x, p, _ => baseJac k x p
@@ -893,6 +916,7 @@ def handle : List String → Option String
     | "names" => some (" ".intercalate m.params)
     | "jac" => (m.jac x p sols).map showFloatList
     | "der" => (m.der x p sols).map showFloat
+    | "val" => (m.val x p sols).map showFloat
     | _ => none
   | "c13.fit" :: variant :: rest => do
     let (assoc, rest) ← parseAssoc rest
